@@ -338,10 +338,11 @@ void sim_point(int site_kind, int site_id) {
     if (w.cur < 0 || w.oracle) return;
     w.events++;
     w.ehash = mix2(w.ehash, ((uint64_t)site_id << 16) | ((uint64_t)site_kind << 8) | (uint64_t)w.cur);
-    if (w.events > w.event_cap) {
+    CurOp &co = w.ts[w.cur]->cur;
+    if (++co.op_events > co.op_budget) {
         if (!w.viol.set) {
             w.viol.set = true; w.viol.prop = w.armed; w.viol.cls = "hang";
-            w.viol.detail = "event budget exceeded inside one run (library call does not return)";
+            w.viol.detail = "a library call made more than " + std::to_string((unsigned long long)co.op_budget) + " cross-module calls, far beyond what its arguments can need: it does not return";
             w.viol.task = w.cur; w.viol.op = w.ts[w.cur] ? w.ts[w.cur]->cur.index : -1;
         }
         abort_run_from_task(w);
@@ -419,7 +420,6 @@ void world_run(World &w) {
     w.ntasks = (int)p.tasks.size();
     g_world = &w;
     w.srng = Rng(mix2(p.sched_seed, 0x5C4ED));
-    if (!w.event_cap) w.event_cap = 40000000ULL;
     for (int i = 0; i < w.ntasks; i++) {
         Task &t = w.tasks[i];
         if (!g_stack_pool[i]) {
